@@ -568,6 +568,12 @@ pub fn run(ctx: &Ctx) -> CheckOutput {
 	small.push(vec![0x82, 0xa1, b'a', 0x01, 0xa1, b'b', 0x92, 0x01, 0x02]);
 	let small = gen::dedup(small);
 	let tc = par_fold(&small, Tally::default, |t, _, input| {
+		// only inputs that translate when nothing fails: a malformed input may legitimately be refused for
+		// what it is before the source's failure is ever seen
+		if !crate::run::run_reader(crate::run::ChunkReader::new(input, 0), None, F::Json).ok {
+			t.count("detect:reader-faults:input-refused-anyway");
+			return;
+		}
 		for k in 0..=input.len() {
 			for chunk in [0usize, 1, 3] {
 				for kind in super::c12::KINDS {
@@ -604,7 +610,7 @@ pub fn run(ctx: &Ctx) -> CheckOutput {
 		level: "model_checking",
 		tally,
 		rule: format!(
-			"(A) explicit-state BFS to fixpoint over the real input handle (hook HandleProbe): data sizes 0..={nmax}, 5 source answer patterns, transitions = one borrow running any program of <= {max_ops} operations from {{read(b), prefix(b): b in 0..=n+1}}; states keyed on (captured_len, cursor_pos, source_eof, source_offset, pattern phase) read from the real object; reference model (byte string + offset) checked on every operation; both ways of taking ownership (Cow; Input drained with 4 chunkings) from every state; key validated by probe suffixes. (B) detection differential over the C02 corpus + truncated MessagePack collections + collection-marker first bytes + U+0700-07FF texts + all byte strings <= 2: detection never errs, None => 'unable to detect input format', Some F => translate(None) == translate(F) in verdict, bytes and error text for slice and for every reader schedule with <= {d} deviations, and slice/reader detect the same format for inputs that translate. (C) every seed input of <= 48 bytes read with detection from a source that fails (4 error kinds) after every byte offset, three chunkings: the run ends with the source's error text, never with success or 'unable to detect input format'. Non-trivial = input translates successfully with detection."
+			"(A) explicit-state BFS to fixpoint over the real input handle (hook HandleProbe): data sizes 0..={nmax}, 5 source answer patterns, transitions = one borrow running any program of <= {max_ops} operations from {{read(b), prefix(b): b in 0..=n+1}}; states keyed on (captured_len, cursor_pos, source_eof, source_offset, pattern phase) read from the real object; reference model (byte string + offset) checked on every operation; both ways of taking ownership (Cow; Input drained with 4 chunkings) from every state; key validated by probe suffixes. (B) detection differential over the C02 corpus + truncated MessagePack collections + collection-marker first bytes + U+0700-07FF texts + all byte strings <= 2: detection never errs, None => 'unable to detect input format', Some F => translate(None) == translate(F) in verdict, bytes and error text for slice and for every reader schedule with <= {d} deviations, and slice/reader detect the same format for inputs that translate. (C) every seed input of <= 48 bytes that translates when nothing fails, read with detection from a source that fails (4 error kinds) after every byte offset, three chunkings: the run ends with the source's error text, never with success or 'unable to detect input format'. Non-trivial = input translates successfully with detection."
 		),
 		exhaustive: true,
 		bounds: json!({"handle_data_sizes": nmax, "handle_ops_per_borrow": max_ops, "deviations": d}),
@@ -632,6 +638,9 @@ pub fn replay(case: &Value) -> Option<String> {
 				Some("Interrupted") => std::io::ErrorKind::Interrupted,
 				_ => std::io::ErrorKind::Other,
 			};
+			if !crate::run::run_reader(crate::run::ChunkReader::new(&input, 0), None, F::Json).ok {
+				return None;
+			}
 			let r = crate::run::run_reader(crate::env::FailAtReader::new(&input, case["k"].as_u64().unwrap() as usize, case["chunk"].as_u64().unwrap() as usize).with_kind(kind), None, F::Json);
 			(r.panic.is_some() || r.ok || !r.err.contains(crate::env::INJECTED_READ)).then(|| r.brief())
 		}
